@@ -1400,7 +1400,8 @@ class TTNS(TTNBase):
         if imag_time:
             coeff = 1
             tau = tau.imag
-            ttns = self
+            # the projector-splitting schemes work in place: do not let them overwrite `self`
+            ttns = self.copy()
         else:
             coeff = -1j
             ttns = self.to_complex()
